@@ -41,7 +41,7 @@ Theorem C14_accepted_renders_any_tab : forall (c : ctor) (ops : list bop) (st : 
 Proof. exact accepted_renders_any_tab. Qed.
 Print Assumptions C14_accepted_renders_any_tab.
 
-(** REFUTED for tab widths above isize::MAX (class "tab-width-huge", candidate finding): with
+(** REFUTED for tab widths above isize::MAX (open known finding D24, class "draw-panic-tab-width-huge"): with
     ProgressBar::with_tab_width(usize::MAX) a template that holds a with_key key panics in the
     draw (`" ".repeat(tab_width)`, capacity overflow) although no builder call panicked.
     Reproduced on the implementation (docs/C14.md). *)
